@@ -338,7 +338,7 @@ def conditions(tier, seed):
         for a, b in U.class_pairs(U.ALPHABET):
             if a[0] in sel and b[0] in sel:
                 continue
-            if a[0] in ('cat_b', 'isp_b', 'cat_self', 'isp_self', 'tile') and b[0] in sel:
+            if a[0] in ('cat_b', 'isp_b', 'isp3', 'cat_self', 'isp_self', 'tile') and b[0] in sel:
                 add('dict', 1, (a, b))
                 continue
             add('dict', 2, (a, b))
